@@ -127,19 +127,197 @@ mod imp {
 
 #[cfg(not(kani))]
 mod imp2 {
+    //! Differential replay for HMC / NUTS: the real sampler code against a plain-f64 reference
+    //! (velocity Verlet, Metropolis test, Hoffman-Gelman Algorithm 6, dual averaging inputs) that draws
+    //! from a clone of the sampler's generator with the same rand calls in the algorithm's order.
     use burn::backend::{Autodiff, NdArray};
     use burn::prelude::*;
-    use mini_mcmc::distributions::DiffableGaussian2D;
+    use mini_mcmc::distributions::{DiffableGaussian2D, Rosenbrock2D};
     use mini_mcmc::hmc::HMC;
+    use mini_mcmc::nuts::{verif_hooks, NUTSChain};
+    use rand::rngs::SmallRng;
+    use rand::{Rng, SeedableRng};
+    use rand_distr::{Exp1, StandardNormal};
     use serde_json::{json, Value};
 
     type B32 = Autodiff<NdArray<f32>>;
+    type B64 = Autodiff<NdArray<f64>>;
+
+    fn f64s(v: &Value) -> Vec<f64> {
+        v.as_array().map(|a| a.iter().map(|x| x.as_f64().unwrap_or(f64::NAN)).collect()).unwrap_or_default()
+    }
+    fn num(x: f64) -> Value {
+        if x.is_finite() { json!(x) } else if x.is_nan() { json!("NaN") } else if x > 0.0 { json!("inf") } else { json!("-inf") }
+    }
+    fn nums(v: &[f64]) -> Value {
+        Value::Array(v.iter().map(|x| num(*x)).collect())
+    }
+    fn t1(v: &[f64]) -> Tensor<B64, 1> {
+        Tensor::<B64, 1>::from_data(TensorData::new(v.to_vec(), [v.len()]), &Default::default())
+    }
+    fn v1(t: &Tensor<B64, 1>) -> Vec<f64> {
+        t.to_data().to_vec::<f64>().unwrap()
+    }
+
+    /// closed-form reference targets (2-D)
+    #[derive(Clone)]
+    pub enum RefT {
+        Gauss { mean: [f64; 2], inv: [[f64; 2]; 2], norm: f64 },
+        Rosen { a: f64, b: f64 },
+    }
+    impl RefT {
+        fn lp(&self, x: &[f64]) -> f64 {
+            match self {
+                RefT::Gauss { mean, inv, norm } => {
+                    let d = [x[0] - mean[0], x[1] - mean[1]];
+                    let z = [d[0] * inv[0][0] + d[1] * inv[1][0], d[0] * inv[0][1] + d[1] * inv[1][1]];
+                    norm - 0.5 * (z[0] * d[0] + z[1] * d[1])
+                }
+                RefT::Rosen { a, b } => -((a - x[0]).powi(2) + b * (x[1] - x[0] * x[0]).powi(2)),
+            }
+        }
+        fn grad(&self, x: &[f64]) -> Vec<f64> {
+            match self {
+                RefT::Gauss { mean, inv, .. } => {
+                    let d = [x[0] - mean[0], x[1] - mean[1]];
+                    // -1/2 (Sigma^-1 + Sigma^-T) d
+                    vec![
+                        -0.5 * ((inv[0][0] + inv[0][0]) * d[0] + (inv[0][1] + inv[1][0]) * d[1]),
+                        -0.5 * ((inv[1][0] + inv[0][1]) * d[0] + (inv[1][1] + inv[1][1]) * d[1]),
+                    ]
+                }
+                RefT::Rosen { a, b } => {
+                    let t = x[1] - x[0] * x[0];
+                    vec![2.0 * (a - x[0]) + 4.0 * b * x[0] * t, -2.0 * b * t]
+                }
+            }
+        }
+    }
+
+    fn targets(case: &Value) -> (RefT, Option<DiffableGaussian2D<f64>>, Option<Rosenbrock2D<f64>>) {
+        if case["target"]["kind"].as_str() == Some("rosenbrock") {
+            let a = case["target"]["a"].as_f64().unwrap_or(1.0);
+            let b = case["target"]["b"].as_f64().unwrap_or(3.0);
+            (RefT::Rosen { a, b }, None, Some(Rosenbrock2D { a, b }))
+        } else {
+            let mean = f64s(&case["target"]["mean"]);
+            let cov = f64s(&case["target"]["cov"]);
+            let g = DiffableGaussian2D::<f64>::new([mean[0], mean[1]], [[cov[0], cov[1]], [cov[2], cov[3]]]);
+            (RefT::Gauss { mean: g.mean, inv: g.inv_cov, norm: g.norm_const }, Some(g), None)
+        }
+    }
+
+    fn dot(a: &[f64], b: &[f64]) -> f64 {
+        a.iter().zip(b).map(|(x, y)| x * y).sum()
+    }
+    fn ref_leapfrog(t: &RefT, th: &[f64], r: &[f64], g: &[f64], eps: f64) -> (Vec<f64>, Vec<f64>, Vec<f64>, f64) {
+        let r1: Vec<f64> = r.iter().zip(g).map(|(r, g)| r + g * eps * 0.5).collect();
+        let th1: Vec<f64> = th.iter().zip(&r1).map(|(t, r)| t + r * eps).collect();
+        let lp1 = t.lp(&th1);
+        let g1 = t.grad(&th1);
+        let r2: Vec<f64> = r1.iter().zip(&g1).map(|(r, g)| r + g * eps * 0.5).collect();
+        (th1, r2, g1, lp1)
+    }
+    fn uturn(thm: &[f64], thp: &[f64], rm: &[f64], rp: &[f64]) -> bool {
+        let d: Vec<f64> = thp.iter().zip(thm).map(|(p, m)| p - m).collect();
+        dot(&d, rm) >= 0.0 && dot(&d, rp) >= 0.0
+    }
+    #[derive(Clone)]
+    pub struct Tree {
+        thm: Vec<f64>, rm: Vec<f64>, gm: Vec<f64>, thp: Vec<f64>, rp: Vec<f64>, gp: Vec<f64>,
+        th1: Vec<f64>, g1: Vec<f64>, lp1: f64, n: usize, s: bool, a: f64, na: usize,
+    }
+    #[allow(clippy::too_many_arguments)]
+    fn ref_build(t: &RefT, th: &[f64], r: &[f64], g: &[f64], logu: f64, v: i8, j: usize, eps: f64, joint0: f64, rng: &mut SmallRng) -> Tree {
+        if j == 0 {
+            let (th1, r1, g1, lp1) = ref_leapfrog(t, th, r, g, (v as f64) * eps);
+            let joint = lp1 - 0.5 * dot(&r1, &r1);
+            return Tree { thm: th1.clone(), rm: r1.clone(), gm: g1.clone(), thp: th1.clone(), rp: r1.clone(), gp: g1.clone(),
+                          th1, g1, lp1, n: (logu < joint) as usize, s: logu - 1000.0 < joint,
+                          a: f64::min(1.0, (joint - joint0).exp()), na: 1 };
+        }
+        let mut tr = ref_build(t, th, r, g, logu, v, j - 1, eps, joint0, rng);
+        if tr.s {
+            let t2 = if v == -1 {
+                ref_build(t, &tr.thm.clone(), &tr.rm.clone(), &tr.gm.clone(), logu, v, j - 1, eps, joint0, rng)
+            } else {
+                ref_build(t, &tr.thp.clone(), &tr.rp.clone(), &tr.gp.clone(), logu, v, j - 1, eps, joint0, rng)
+            };
+            if v == -1 { tr.thm = t2.thm.clone(); tr.rm = t2.rm.clone(); tr.gm = t2.gm.clone(); }
+            else { tr.thp = t2.thp.clone(); tr.rp = t2.rp.clone(); tr.gp = t2.gp.clone(); }
+            let u: f64 = rng.random::<f64>();
+            if u < (t2.n as f64) / ((tr.n + t2.n).max(1) as f64) {
+                tr.th1 = t2.th1.clone(); tr.g1 = t2.g1.clone(); tr.lp1 = t2.lp1;
+            }
+            tr.n += t2.n;
+            tr.s = tr.s && t2.s && uturn(&tr.thm, &tr.thp, &tr.rm, &tr.rp);
+            tr.a += t2.a;
+            tr.na += t2.na;
+        }
+        tr
+    }
+    /// one NUTS transition (Algorithm 6 outer loop): (new position, alpha, n_alpha, depth)
+    fn ref_step(t: &RefT, pos: &[f64], eps: f64, rng: &mut SmallRng, max_depth: usize) -> (Vec<f64>, f64, usize, usize) {
+        let dim = pos.len();
+        let r0: Vec<f64> = (0..dim).map(|_| rng.sample::<f64, _>(StandardNormal)).collect();
+        let lp0 = t.lp(pos);
+        let g0 = t.grad(pos);
+        let joint = lp0 - 0.5 * dot(&r0, &r0);
+        let e: f64 = rng.sample(Exp1);
+        let logu = joint - e;
+        let (mut thm, mut thp, mut rm, mut rp, mut gm, mut gp) = (pos.to_vec(), pos.to_vec(), r0.clone(), r0.clone(), g0.clone(), g0.clone());
+        let mut cur = pos.to_vec();
+        let (mut j, mut n, mut s) = (0usize, 1usize, true);
+        let (mut alpha, mut n_alpha) = (0.0, 0usize);
+        while s && j <= max_depth {
+            let u1: f64 = rng.random::<f64>();
+            let v: i8 = if u1 < 0.5 { 1 } else { -1 };
+            let tr = if v == -1 {
+                let tr = ref_build(t, &thm, &rm, &gm, logu, v, j, eps, joint, rng);
+                thm = tr.thm.clone(); rm = tr.rm.clone(); gm = tr.gm.clone();
+                tr
+            } else {
+                let tr = ref_build(t, &thp, &rp, &gp, logu, v, j, eps, joint, rng);
+                thp = tr.thp.clone(); rp = tr.rp.clone(); gp = tr.gp.clone();
+                tr
+            };
+            alpha = tr.a; n_alpha = tr.na;
+            let u2: f64 = rng.random::<f64>();
+            if tr.s && u2 < f64::min(1.0, tr.n as f64 / n as f64) { cur = tr.th1.clone(); }
+            n += tr.n;
+            s = tr.s && uturn(&thm, &thp, &rm, &rp);
+            j += 1;
+        }
+        (cur, alpha, n_alpha, j)
+    }
 
     fn hmc_run(seed: u64, n_collect: usize) -> Vec<f32> {
         let target = DiffableGaussian2D::new([0.0_f32, 1.0], [[4.0, 2.0], [2.0, 3.0]]);
         let mut s = HMC::<f32, B32, DiffableGaussian2D<f32>>::new(target, vec![vec![0.5_f32, -0.5]; 2], 0.1, 3).set_seed(seed);
         let out: Tensor<B32, 3> = s.run(n_collect, 0);
         out.to_data().to_vec::<f32>().unwrap()
+    }
+
+    fn ref_hmc_step(t: &RefT, pos: &[Vec<f64>], eps: f64, l: usize, rng: &mut SmallRng) -> Vec<Vec<f64>> {
+        let n = pos.len();
+        let d = pos[0].len();
+        let mom: Vec<f64> = (0..n * d).map(|_| rng.sample::<f64, _>(StandardNormal)).collect();
+        let us: Vec<f64> = (0..n).map(|_| rng.random::<f64>()).collect();
+        let mut out = Vec::new();
+        for r in 0..n {
+            let x0 = pos[r].clone();
+            let p0 = mom[r * d..(r + 1) * d].to_vec();
+            let (mut x, mut p) = (x0.clone(), p0.clone());
+            let mut g = t.grad(&x);
+            for _ in 0..l {
+                let (x1, p1, g1, _) = ref_leapfrog(t, &x, &p, &g, eps);
+                x = x1; p = p1; g = g1;
+            }
+            let h0 = -t.lp(&x0) + 0.5 * dot(&p0, &p0);
+            let h1 = -t.lp(&x) + 0.5 * dot(&p, &p);
+            out.push(if us[r].ln() <= h0 - h1 { x } else { x0 });
+        }
+        out
     }
 
     pub fn run(case: &Value) -> Value {
@@ -151,6 +329,91 @@ mod imp2 {
                 let b = hmc_run(seed, n);
                 json!({"equal": a.iter().zip(b.iter()).all(|(x, y)| x.to_bits() == y.to_bits()), "first": a, "second": b})
             }
+            "hmc_step" => {
+                let (rt, g, ro) = targets(case);
+                let pos: Vec<Vec<f64>> = case["positions"].as_array().unwrap().iter().map(f64s).collect();
+                let eps = case["eps"].as_f64().unwrap();
+                let l = case["L"].as_u64().unwrap() as usize;
+                let seed = case["seed"].as_u64().unwrap_or(1);
+                let steps = case["steps"].as_u64().unwrap_or(1) as usize;
+                let mut rng = SmallRng::seed_from_u64(seed);
+                let mut refpos = pos.clone();
+                let real: Vec<f64>;
+                if let Some(g) = g {
+                    let mut s = HMC::<f64, B64, DiffableGaussian2D<f64>>::new(g, pos.clone(), eps, l).set_seed(seed);
+                    for _ in 0..steps { s.step(); }
+                    real = s.positions.to_data().to_vec::<f64>().unwrap();
+                } else {
+                    let mut s = HMC::<f64, B64, Rosenbrock2D<f64>>::new(ro.unwrap(), pos.clone(), eps, l).set_seed(seed);
+                    for _ in 0..steps { s.step(); }
+                    real = s.positions.to_data().to_vec::<f64>().unwrap();
+                }
+                for _ in 0..steps { refpos = ref_hmc_step(&rt, &refpos, eps, l, &mut rng); }
+                json!({"real": nums(&real), "reference": nums(&refpos.concat())})
+            }
+            "nuts_build_tree" => {
+                let (rt, g, ro) = targets(case);
+                let th = f64s(&case["position"]);
+                let r = f64s(&case["momentum"]);
+                let logu = case["logu"].as_f64().unwrap();
+                let v = case["v"].as_i64().unwrap() as i8;
+                let j = case["j"].as_u64().unwrap() as usize;
+                let eps = case["eps"].as_f64().unwrap();
+                let joint0 = case["joint0"].as_f64().unwrap();
+                let seed = case["seed"].as_u64().unwrap_or(1);
+                let g0 = rt.grad(&th);
+                let mut rng_ref = SmallRng::seed_from_u64(seed);
+                let mut rng_real = SmallRng::seed_from_u64(seed);
+                let tr = ref_build(&rt, &th, &r, &g0, logu, v, j, eps, joint0, &mut rng_ref);
+                let out = if let Some(g) = g {
+                    verif_hooks::build_tree::<B64, f64, _>(t1(&th), t1(&r), t1(&g0), logu, v, j, eps, &g, joint0, &mut rng_real)
+                } else {
+                    verif_hooks::build_tree::<B64, f64, _>(t1(&th), t1(&r), t1(&g0), logu, v, j, eps, ro.as_ref().unwrap(), joint0, &mut rng_real)
+                };
+                json!({
+                    "real": {"thm": nums(&v1(&out.0)), "rm": nums(&v1(&out.1)), "thp": nums(&v1(&out.3)), "rp": nums(&v1(&out.4)),
+                             "th1": nums(&v1(&out.6)), "n": out.9, "s": out.10, "a": num(out.11), "na": out.12},
+                    "reference": {"thm": nums(&tr.thm), "rm": nums(&tr.rm), "thp": nums(&tr.thp), "rp": nums(&tr.rp),
+                                  "th1": nums(&tr.th1), "n": tr.n, "s": tr.s, "a": num(tr.a), "na": tr.na},
+                    "rng_in_step": rng_ref == rng_real,
+                })
+            }
+            "nuts_step" => {
+                let (rt, g, ro) = targets(case);
+                let pos = f64s(&case["position"]);
+                let seed = case["seed"].as_u64().unwrap_or(1);
+                let delta = case["delta"].as_f64().unwrap_or(0.8);
+                let st = f64s(&case["adapt"]); // epsilon, epsilon_bar, h_bar, mu
+                let m = case["m"].as_u64().unwrap() as usize;
+                let nd = case["n_discard"].as_u64().unwrap() as usize;
+                let steps = case["steps"].as_u64().unwrap_or(1) as usize;
+                let mut outs = Vec::new();
+                macro_rules! go {
+                    ($target:expr) => {{
+                        let mut c = NUTSChain::<f64, B64, _>::new($target, pos.clone(), delta).set_seed(seed);
+                        c.verif_set_adapt(st[0], st[1], st[2], st[3], m, nd);
+                        let mut refpos = pos.clone();
+                        for _ in 0..steps {
+                            let before = c.verif_adapt();
+                            let mut rng = c.verif_rng().clone();
+                            let (np, alpha, n_alpha, depth) = ref_step(&rt, &refpos, before.0, &mut rng, 12);
+                            c.step();
+                            let after = c.verif_adapt();
+                            let real: Vec<f64> = c.position.to_data().to_vec::<f64>().unwrap();
+                            outs.push(json!({
+                                "before": [num(before.0), num(before.1), num(before.2), num(before.3)], "m_before": before.4,
+                                "after": [num(after.0), num(after.1), num(after.2), num(after.3)], "m_after": after.4, "n_discard": after.5,
+                                "real_position": nums(&real), "reference_position": nums(&np),
+                                "reference_alpha": num(alpha), "reference_n_alpha": n_alpha, "reference_depth": depth,
+                                "rng_in_step": &rng == c.verif_rng(),
+                            }));
+                            refpos = real;
+                        }
+                    }};
+                }
+                if let Some(g) = g { go!(g) } else { go!(ro.unwrap()) }
+                json!({"steps": outs})
+            }
             _ => json!({"error": format!("unknown case {}", case["case"])}),
         }
     }
@@ -161,6 +424,18 @@ fn main() {
     let args: Vec<String> = std::env::args().collect();
     let text = std::fs::read_to_string(&args[1]).expect("read case");
     let case: serde_json::Value = serde_json::from_str(&text).expect("parse case");
-    let out = imp::run(&case);
+    let out = if case["case"].as_str() == Some("batch") {
+        // each case is isolated: a panic in one is reported for that case only
+        let outs: Vec<serde_json::Value> = case["cases"].as_array().unwrap().iter().map(|c| {
+            let c2 = c.clone();
+            match std::panic::catch_unwind(move || imp::run(&c2)) {
+                Ok(v) => v,
+                Err(_) => serde_json::json!({"panic": true}),
+            }
+        }).collect();
+        serde_json::Value::Array(outs)
+    } else {
+        imp::run(&case)
+    };
     println!("{}", out);
 }
